@@ -17,11 +17,13 @@ the returned state, when the window reaches the end of the run), all predicted b
 import math, os
 import vlib
 from vlib import Toks, lst, f2h, h2f
+from props.c03_translate import translate  # noqa: F401  (regenerates lean/NanoVerif/Gen/EllipsoidStep.lean, Gen/BundleStep.lean)
 
 ID = "C03"
 LEVEL = "proof"
 HARNESS = "c03"
-LEAN_MODULES = ["NanoVerif.Props.C03", "NanoVerif.Proofs.BundleSolver"]
+LEAN_MODULES = ["NanoVerif.Props.C03", "NanoVerif.Proofs.BundleSolver", "NanoVerif.Proofs.EllipsoidGen", "NanoVerif.Proofs.BundleGen",
+                "NanoVerif.Proofs.BundleGenField"]
 NB = "NanoVerif.Bundle."
 NE = "NanoVerif.Ellipsoid."
 OBLIGATIONS = []   # filled in below (kept next to the theorem list)
@@ -36,6 +38,13 @@ TRUSTED = [
     "NANO_VERIF trace sink installed, driver_c03 replays every logged append / solve / csearch pass / outer-loop decision "
     "(serious or null, the point handed to the bundle, the Nesterov extrapolation, the proximity parameter) / ellipsoid pass "
     "(iterND) / final status from the logged pre-state and oracle answers",
+    "REGENERATED on every run from the tree under check (tools/props/c03_translate.py -> Gen/EllipsoidStep.lean, Gen/BundleStep.lean; the "
+    "model_*_is_generated obligations state that the hand-written model's definitions ARE the generated ones): every scalar formula and "
+    "decision of the ellipsoid loop body; econverged/sconverged/delta/proximal, the error formulas of bundle_t::append, solve for 1-2 rows; "
+    "the whole decision chain of csearch_t::search (symbolic execution) with new_trial and the status numbering; make_miu0/make_miu, the "
+    "grid, nu combination and guards of proximity_t::update; iter_ok/converged/dispatch of rqb.cpp and fpba.cpp. The translator (python, "
+    "expression parser of c07_translate) and its reading of Eigen expressions element-wise are trusted; statements it only pins as text "
+    "(reductions smeared_e/smeared_s, branch bodies of the outer loops, plumbing of proximity_t::update) break the translation when edited",
     "ORACLES of the model (contracts are hypotheses of the theorems, monitored on every trace): the objective returns true "
     "sub-gradients; bundle_t::solve returns a point of the simplex for >= 3 rows (|sum-1| <= 1e-9, alpha >= -1e-12 on EVERY call of "
     "every run; proved for 1 and 2 rows: solve1_simplex, solve2_simplex) and, whenever the QP solver itself reports converged, a "
@@ -92,7 +101,25 @@ OBLIGATIONS = [NB + t for t in [
     # outer loops of RQB / FPBA1 / FPBA2 (Proofs/BundleSolver.lean)
     "miuInit_pos", "proxUpdate1_pos", "proxUpdate2_pos", "csearchLoop_spec", "seriousR_inv", "seriousF_inv", "pass_spec",
     "run_spec", "start_inv", "solver_run_certificate", "solver_run_statement_bound",
-]] + ["NanoVerif.C03SolverExamples.exE_ok", "NanoVerif.C03SolverExamples.hw_necessary"]
+]] + ["NanoVerif.C03SolverExamples.exE_ok", "NanoVerif.C03SolverExamples.hw_necessary"] + [NE + t for t in [
+    # translation round: the model's formulas ARE the ones regenerated from src/solver/ellipsoid.cpp (Proofs/EllipsoidGen.lean)
+    "model_initH_is_generated", "model_earlyStop_is_generated", "model_step1d_is_generated", "model_alphaCut_is_generated",
+    "model_stepX_is_generated", "model_stepH_is_generated", "model_converged_is_generated", "model_iterND_early_is_generated",
+    "model_iterND_regular_is_generated",
+]] + [NB + t for t in [
+    # … from bundle.cpp / bundle.h / csearch.cpp / csearch.h (Proofs/BundleGen.lean)
+    "model_appendStep_is_generated", "model_delCount_is_generated", "model_proximal_is_generated",
+    "model_status_numbering_is_generated", "model_csearch_start_is_generated", "model_newTrial_is_generated",
+    "model_csearchStep_is_generated", "model_econverged_is_generated", "model_sconverged_is_generated", "model_delta_is_generated",
+    # the one- and two-row branches of bundle_t::solve (Proofs/BundleGenField.lean: `0.5 * x` = `x / 2` in a field)
+    "model_solve1_is_generated", "model_solve2_is_generated",
+]] + ["NanoVerif.BundleSolver." + t for t in [
+    # … from proximity.cpp
+    "model_makeMiu0_is_generated", "model_makeMiu_is_generated", "model_makeMiuU_is_generated", "model_nuComb_is_generated",
+    "model_proxUpdate1_is_generated", "model_proxUpdate2_is_generated",
+    # … from rqb.cpp / fpba.cpp: flags handed to solver_t::done and the dispatch on the curve-search status
+    "model_pass_is_generated",
+]]
 
 
 # ---------------------------------------------------------------------------------------------------------
